@@ -234,6 +234,25 @@ def main(run):
             cases += gen_tls.gen_random(tie.rng_for(run, "c19/%d" % k), n)
     lines = [c.line() for c in cases]
     outs, cred, fails = evaluate(run, model, drv, cases, lines)
+    # A "nothing was lost, so everything must arrive" verdict is only as good as the scripted
+    # world is closed.  Such a failure counts only if the case, run alone in a fresh process,
+    # fails the same way twice more; the others are counted, not reported.
+    kept, flaky = [], 0
+    for f in fails:
+        i, tag, what, no_input = f
+        if tag == "oracle" and (what.startswith("matching credentials, no loss") or
+                                what.startswith("requests reached the server handler out of order")):
+            again = 0
+            for _ in range(2):
+                _, _, f2 = evaluate(run, model, drv, [cases[i]], [lines[i]])
+                again += any(x[1] == "oracle" and x[2][:28] == what[:28] for x in f2)
+            if again < 2:
+                flaky += 1
+                vlib.log("note (C19): not reproduced (%d of 2 re-runs): %s  [%s]" % (again, what, lines[i][:160]))
+                continue
+        kept.append(f)
+    fails = kept
+    run.cov["flaky_not_reproduced"] = flaky
     for i, (c, o) in enumerate(zip(cases, outs)):
         toks = o.split()
         nontriv = (("s.ck:0" in toks) or bool(c.force)) and any(t.startswith("a.q:") for t in toks)
@@ -293,6 +312,16 @@ def main(run):
                     run.violation(what, "case: %s\nwhat: %s\ntrace:\n%s\n" % (ln, what, o.replace(" |", "\n|")), tag="tcpih%d" % nih, no_input=True)
                 break
         for b in gen_tls.tcp_oracle(c, o, cr.startswith("match=1")):
+            if b.startswith("TLS, matching credentials") or b.startswith("TLS: requests reached"):
+                # the TLS/TCP driver runs on the real clock: such a verdict must reproduce twice
+                again = 0
+                for _ in range(2):
+                    o2 = vlib.run_lines_robust(tdrv, [ln], timeout=120)[0][0]
+                    again += any(x[:25] == b[:25] for x in gen_tls.tcp_oracle(c, o2, cr.startswith("match=1")))
+                if again < 2:
+                    run.cov["flaky_not_reproduced"] = run.cov.get("flaky_not_reproduced", 0) + 1
+                    vlib.log("note (C19): not reproduced (%d of 2 re-runs): %s  [%s]" % (again, b, ln[:160]))
+                    continue
             nt += 1
             if nt <= 3:
                 run.violation(b, "case: %s\nwhat: %s\ntrace:\n%s\n" % (ln, b, o.replace(" |", "\n|")), tag="tcp%d" % nt)
